@@ -1,22 +1,217 @@
 import NeumannModel.RaftWal.Lemmas
 /-
   C10 — Raft node restart never forgets a vote, a term or an acknowledged entry.
+
+  Setting of every theorem below (the quantifier of the property):
+    * `acts`  : ANY history of handler calls and crashes — `Act.ev e` runs handler `e` to the end,
+                `Act.crash e k` kills the process after `k` micro steps of handler `e` (a micro step is
+                one fsynced WAL append or one acknowledgement sent) and restarts the node from its WAL.
+                The list is arbitrary, so the number of crashes is unbounded.
+    * then handler `e` starts and the machine dies leaving ANY byte prefix `n` of the WAL file that
+      still contains the part synced before `e` started (appends are fsynced one after the other, so a
+      crash can only tear the record being written);
+    * `ghost` is what the node had told the outside world at that moment: the highest term it acted in,
+      the votes it granted, the entries it acknowledged to a leader or accepted as leader
+      (`microAllG σ.ghost (ms.take k)` for every `k` consistent with the records found on disk).
+  `restart` is `RaftNode::with_wal`; `recoverBytes` is `RaftWal::open` + `replay` + `from_entries`.
+  `_partial`: handlers other than `install_snapshot` (see `recovered_log_contains_acked_full`).
 -/
 namespace Neumann.RaftWal.Props
-open Neumann.RaftWal
+open Neumann.RaftWal Neumann.FramedLog
 
-/-- whatever records follow, the recovered term never goes down -/
-theorem recovered_term_monotone (rs extra : List WalEntry) :
-    (fromEntries rs).term ≤ (fromEntries (rs ++ extra)).term := by
-  simp only [fromEntries, applyAll, List.foldl_append]
-  exact applyAll_term_mono _ extra
+variable (crc : List Nat → Nat) (ser : WalEntry → List Nat) (deser : List Nat → Option WalEntry)
 
-/-- a recovered vote is never replaced by a different vote of the same term -/
-theorem recovered_vote_stable (rs extra : List WalEntry) (v : Nat × Nat) (h : VoteOk (fromEntries rs) v) :
-    VoteOk (fromEntries (rs ++ extra)) v := by
-  simp only [fromEntries, applyAll, List.foldl_append]
-  exact applyAll_voteOk _ extra v h
+/-- the file cut at byte `n` while handler `e` was running on the system reached by `acts` -/
+def crashFile (id : Nat) (acts : List Act) (e : Event) (n : Nat) : List Nat :=
+  let σ := exec (initSys id) acts
+  (fileOf crc ser (σ.dur ++ recs (step σ.node e).micros)).take n
 
-example : VoteOk (fromEntries [.termAndVote 3 (some 2)]) (3, 2) := by unfold VoteOk; decide
+/-- obligations in force when `k` micro steps of `e` were done -/
+def ghostAt (id : Nat) (acts : List Act) (e : Event) (k : Nat) : Ghost :=
+  let σ := exec (initSys id) acts
+  microAllG σ.ghost ((step σ.node e).micros.take k)
+
+/-- Core statement: a byte-level crash is a record-level crash, the restarted system satisfies the
+    invariant again (so the argument repeats for any further crash), and the repaired file is the
+    exact encoding of the surviving records. -/
+theorem byte_crash_refines_record_crash (h : GoodSer crc ser deser) (id : Nat) (acts : List Act) (e : Event)
+    (n : Nat) (hacts : ∀ a ∈ acts, NoSnapAct a) (he : NoSnap e)
+    (hn : (fileOf crc ser (exec (initSys id) acts).dur).length ≤ n) :
+    ∃ s cnt en, recoverBytes crc deser (crashFile crc ser id acts e n) = .ok s cnt en ∧
+      ∀ k, (exec (initSys id) acts).dur.length + (recs ((step (exec (initSys id) acts).node e).micros.take k)).length = cnt →
+        let σ' := execAct (exec (initSys id) acts) (.crash e k)
+        s = fromEntries σ'.dur ∧ openRepair (crashFile crc ser id acts e n) = fileOf crc ser σ'.dur ∧ Inv σ' := by
+  obtain ⟨j, _, ⟨en, hrec⟩, hrep⟩ := byte_cut crc ser deser h (exec (initSys id) acts).dur
+    (recs (step (exec (initSys id) acts).node e).micros) n hn
+  refine ⟨_, _, en, hrec, ?_⟩
+  intro k hk
+  have hj : (recs ((step (exec (initSys id) acts).node e).micros.take k)).length = j := by omega
+  have hd : (execAct (exec (initSys id) acts) (.crash e k)).dur
+      = (exec (initSys id) acts).dur ++ (recs (step (exec (initSys id) acts).node e).micros).take j := by
+    simp only [execAct]
+    rw [recs_take, hj]
+  refine ⟨by rw [hd], by rw [hd]; exact hrep, ?_⟩
+  exact inv_execAct _ _ (inv_exec _ _ (inv_init id) hacts) he
+
+/-- **Term.** The restarted node's term is at least every term it had acted in. -/
+theorem recovered_term_ge_acted_partial (h : GoodSer crc ser deser) (id : Nat) (acts : List Act) (e : Event)
+    (n : Nat) (hacts : ∀ a ∈ acts, NoSnapAct a) (he : NoSnap e)
+    (hn : (fileOf crc ser (exec (initSys id) acts).dur).length ≤ n) :
+    ∃ s cnt en, recoverBytes crc deser (crashFile crc ser id acts e n) = .ok s cnt en ∧
+      ∀ k, (exec (initSys id) acts).dur.length + (recs ((step (exec (initSys id) acts).node e).micros.take k)).length = cnt →
+        (ghostAt id acts e k).actedTerm ≤ (restart id s).term := by
+  obtain ⟨s, cnt, en, hrec, hall⟩ := byte_crash_refines_record_crash crc ser deser h id acts e n hacts he hn
+  refine ⟨s, cnt, en, hrec, fun k hk => ?_⟩
+  obtain ⟨hs, _, hinv⟩ := hall k hk
+  have := hinv.2.2.1
+  rw [← hs] at this
+  exact this
+
+/-- **Vote.** For every vote `(t, c)` the node had granted: after restart it is past term `t`, or still
+    in term `t` with `votedFor = c`. -/
+theorem recovered_vote_eq_cast_partial (h : GoodSer crc ser deser) (id : Nat) (acts : List Act) (e : Event)
+    (n : Nat) (hacts : ∀ a ∈ acts, NoSnapAct a) (he : NoSnap e)
+    (hn : (fileOf crc ser (exec (initSys id) acts).dur).length ≤ n) :
+    ∃ s cnt en, recoverBytes crc deser (crashFile crc ser id acts e n) = .ok s cnt en ∧
+      ∀ k, (exec (initSys id) acts).dur.length + (recs ((step (exec (initSys id) acts).node e).micros.take k)).length = cnt →
+        ∀ v ∈ (ghostAt id acts e k).votes,
+          v.1 < (restart id s).term ∨ (v.1 = (restart id s).term ∧ (restart id s).votedFor = some v.2) := by
+  obtain ⟨s, cnt, en, hrec, hall⟩ := byte_crash_refines_record_crash crc ser deser h id acts e n hacts he hn
+  refine ⟨s, cnt, en, hrec, fun k hk v hv => ?_⟩
+  obtain ⟨hs, _, hinv⟩ := hall k hk
+  have := hinv.2.2.2.1 v hv
+  rw [← hs] at this
+  exact this
+
+/-- **Log.** Every entry the node had acknowledged to a leader or accepted as leader (and that no
+    conflict truncation ordered by a later leader had begun to remove) is in the restarted node's log. -/
+theorem recovered_log_contains_acked_partial (h : GoodSer crc ser deser) (id : Nat) (acts : List Act) (e : Event)
+    (n : Nat) (hacts : ∀ a ∈ acts, NoSnapAct a) (he : NoSnap e)
+    (hn : (fileOf crc ser (exec (initSys id) acts).dur).length ≤ n) :
+    ∃ s cnt en, recoverBytes crc deser (crashFile crc ser id acts e n) = .ok s cnt en ∧
+      ∀ k, (exec (initSys id) acts).dur.length + (recs ((step (exec (initSys id) acts).node e).micros.take k)).length = cnt →
+        ∀ a ∈ (ghostAt id acts e k).acked, a ∈ (restart id s).log := by
+  obtain ⟨s, cnt, en, hrec, hall⟩ := byte_crash_refines_record_crash crc ser deser h id acts e n hacts he hn
+  refine ⟨s, cnt, en, hrec, fun k hk a ha => ?_⟩
+  obtain ⟨hs, _, hinv⟩ := hall k hk
+  have hmem := hinv.2.2.2.2 a ha
+  rw [← hs] at hmem
+  have hshape : Shape s := by
+    rw [hs]; exact ⟨_, hinv.2.1, hinv.1.2.2⟩
+  have hsync := (restart_sync id s hshape).1.2.2
+  rw [hsync] at hmem
+  obtain ⟨b, hb, hbe⟩ := List.mem_map.mp hmem
+  have : b = a := by
+    cases a; cases b
+    simp only [entKV, encEntry, Prod.mk.injEq, List.cons.injEq] at hbe
+    obtain ⟨h1, _, h2, h3, _⟩ := hbe
+    subst h1; subst h2; subst h3; rfl
+  rw [← this]; exact hb
+
+/-- The same three facts for a node that is simply running (or was restarted any number of times):
+    its memory equals what a restart would recover, and the obligations hold. -/
+theorem running_node_matches_its_log_partial (id : Nat) (acts : List Act) (hacts : ∀ a ∈ acts, NoSnapAct a) :
+    let σ := exec (initSys id) acts
+    σ.node.term = (fromEntries σ.dur).term ∧ σ.node.votedFor = (fromEntries σ.dur).votedFor
+      ∧ σ.node.log = (restart id (fromEntries σ.dur)).log
+      ∧ σ.ghost.actedTerm ≤ σ.node.term
+      ∧ (∀ a ∈ σ.ghost.acked, a ∈ σ.node.log) := by
+  have hinv := inv_exec _ _ (inv_init id) hacts
+  obtain ⟨hS, hwf, hsat⟩ := hinv
+  have hshape : Shape (fromEntries (exec (initSys id) acts).dur) := ⟨_, hwf, hS.2.2⟩
+  refine ⟨hS.1, hS.2.1, ?_, by rw [hS.1]; exact hsat.1, ?_⟩
+  · simp only [restart, recoveredLog, hS.2.2]
+    exact (filterMap_dec _).symm
+  · intro a ha
+    have hmem := hsat.2.2 a ha
+    rw [hS.2.2] at hmem
+    obtain ⟨b, hb, hbe⟩ := List.mem_map.mp hmem
+    have : b = a := by
+      cases a; cases b
+      simp only [entKV, encEntry, Prod.mk.injEq, List.cons.injEq] at hbe
+      obtain ⟨h1, _, h2, h3, _⟩ := hbe
+      subst h1; subst h2; subst h3; rfl
+    rw [← this]; exact hb
+
+/-- Full statement including `install_snapshot` events: kept as a definition, NOT proved — the code
+    replaces the in-memory log by the snapshot's entries without logging them (raft.rs
+    `install_snapshot_entries`), so entries acknowledged afterwards on top of the snapshot are not
+    recoverable from the WAL.  `snapshot_install_not_durable_witness` below is the model-level witness;
+    the harness probes the real node (stream `snapshot`). -/
+def recovered_log_contains_acked_full : Prop :=
+  ∀ (id : Nat) (acts : List Act),
+    let σ := exec (initSys id) acts
+    ∀ a ∈ σ.ghost.acked, a ∈ (restart id (fromEntries σ.dur)).log
+
+/-- follower holds [1,2]; a snapshot with entries 1..4 is installed; the leader's next AppendEntries
+    (prev = 4) is acknowledged with match_index 5; after a restart entries 3 and 4 are gone. -/
+theorem snapshot_install_not_durable_witness : ¬ recovered_log_contains_acked_full := by
+  intro hall
+  have := hall 0
+    [.ev (.appendEntries 1 1 0 0 [(1, 10), (1, 11)]),
+     .ev (.installSnapshot 4 1 [(1, 10), (1, 11), (1, 12), (1, 13)]),
+     .ev (.appendEntries 1 1 4 1 [(1, 14)])]
+    ⟨3, 1, 12⟩ (by decide)
+  revert this
+  decide
+
+/-- **Pre-fix `open` (append position = physical end of file).** A record torn by a crash, then a
+    restart that appends an acknowledged record behind the torn bytes: the next replay stops with a
+    checksum error and returns nothing — the acknowledged record is lost.  With the repaired `open`
+    the same bytes replay to exactly the acknowledged record. -/
+def wcrc (p : List Nat) : Nat := p.sum + 1
+
+theorem append_after_torn_tail_witness :
+    parse wcrc (fun _ => true) (openOld ((encodeAll wcrc [[9]]).take 8) ++ encodeAll wcrc [[7]]) = ([], .badCrc)
+    ∧ parse wcrc (fun _ => true) (openRepair ((encodeAll wcrc [[9]]).take 8) ++ encodeAll wcrc [[7]]) = ([[7]], .clean) := by
+  constructor
+  · rw [parse]; simp [openOld, encodeAll, encodeRec, le32, de32, wcrc]
+  · have := reopen_append_replay wcrc (fun _ => true) [[9]] [[7]] 8
+      (by simp [GoodRec, wcrc, U32]) (by simp [GoodRec, wcrc, U32])
+    simpa [wholeWithin, encodeRec, le32] using this
+
+/-! ### non-vacuity: the hypotheses are satisfiable by non-trivial executions -/
+
+/-- a concrete history with an election, a granted vote, appends, a conflict truncation, a proposal and
+    two crashes (one in the middle of a handler) satisfies `NoSnapAct` and produces obligations -/
+def demoActs : List Act :=
+  [.ev (.requestVote 1 2 0 0),
+   .ev (.appendEntries 1 2 0 0 [(1, 10), (1, 11), (1, 12)]),
+   .crash (.appendEntries 2 3 1 1 [(2, 20), (2, 21)]) 2,
+   .ev (.appendEntries 2 3 1 1 [(2, 20), (2, 21)]),
+   .ev .startElection, .ev .becomeLeader, .ev (.propose 30),
+   .crash (.requestVote 9 4 9 9) 1]
+
+example : ∀ a ∈ demoActs, NoSnapAct a := by
+  intro a ha
+  simp only [demoActs, List.mem_cons, List.mem_nil_iff, or_false] at ha
+  rcases ha with rfl | rfl | rfl | rfl | rfl | rfl | rfl | rfl <;> simp [NoSnapAct, NoSnap]
+example : (exec (initSys 0) demoActs).ghost.votes = [(3, 0), (1, 2)] := by decide
+example : (exec (initSys 0) demoActs).ghost.acked.length = 5 := by decide
+example : (exec (initSys 0) demoActs).node.term = 9 ∧ (exec (initSys 0) demoActs).node.votedFor = none := by decide
+example : (exec (initSys 0) demoActs).node.log = [⟨1, 1, 10⟩, ⟨2, 2, 20⟩, ⟨3, 2, 21⟩, ⟨4, 3, 30⟩] := by decide
+/-- `GoodSer` is satisfiable: a toy injective serializer -/
+def toySer : WalEntry → List Nat
+  | .termChange t => [0, t]
+  | .voteCast t c => [1, t, c]
+  | .termAndVote t none => [2, t]
+  | .termAndVote t (some c) => [3, t, c]
+  | .logAppend i t => [4, i, t]
+  | .logTruncate f => [5, f]
+  | .snapshotTaken i t => [6, i, t]
+  | .logEntryFull i t d => 7 :: i :: t :: d
+def toyDeser : List Nat → Option WalEntry
+  | [0, t] => some (.termChange t)
+  | [1, t, c] => some (.voteCast t c)
+  | [2, t] => some (.termAndVote t none)
+  | [3, t, c] => some (.termAndVote t (some c))
+  | [4, i, t] => some (.logAppend i t)
+  | [5, f] => some (.logTruncate f)
+  | [6, i, t] => some (.snapshotTaken i t)
+  | 7 :: i :: t :: d => some (.logEntryFull i t d)
+  | _ => none
+example : ∀ r, toyDeser (toySer r) = some r := by
+  intro r; cases r <;> try rfl
+  case termAndVote t v => cases v <;> rfl
 
 end Neumann.RaftWal.Props
